@@ -593,7 +593,7 @@ def run(chk):
                        'implicit scheme) are Lean theorems over abstract spline evaluators; "agree to third order in dt" and termination of '
                        'the fixed-point iteration are analytic and are measured as tests; the model is tied to the code by differential '
                        'testing (exact rationals with evaluator arguments / carried iterates rounded to 2^-80; own termination decision).')
-    chk.proof_side(build=not getattr(chk, 'no_build', False))
+    chk.proof_side(build=not getattr(chk, 'no_build', False), extra_props=('C12Extra',))
     C = Constants()
     drv = common.LeanDriver('C11.lean')
     try:
